@@ -650,7 +650,7 @@ def settings_unit(ctx, unit):
     B.route('/go', 'GET', go)
     for rep in range(2):
         call_app(D, make_environ('GET', '/d'))
-        r = call_app(B, make_environ('GET', '/go', headers={'Host': 'b.example'}))
+        r = call_app(B, make_environ('GET', '/go', headers={'Host': 'b.example'}, extra={'SERVER_PROTOCOL': 'HTTP/1.1'}))      # 303 is what redirect() answers to HTTP/1.1
         ctx.count('settings_arrangements')
         ctx.count('reads_compared')
         ctx.case(('redirect-in-non-default-app', rep), nontrivial=True)
